@@ -34,12 +34,13 @@ theorem enumFrom_keys : ∀ (l : List String) (k : Nat), (enumFrom k l).map (·.
 
 /-- candidate lines followed by the ballots line -/
 theorem loadHeader_cands : ∀ (zs : List ((String × Bool × String) × String)) (n : Nat)
-    (cs : List (String × Bool)) (nk : List (String × Nat)),
+    (cs : List (String × Bool)) (nk : List (String × Nat)) (sc : List (String × HV)) (sys : Summary),
+    createSystem sc = .ok sys →
     (nk.map (fun (p : String × Nat) => p.1) ++ zs.map (fun (z : (String × Bool × String) × String) => z.2)).Nodup →
-    loadHeader (zs.map (fun p => HLine.cand p.1.2.1 p.2 p.1.1) ++ [HLine.ballotsN n]) cs nk
-      = .ok (cs ++ zs.map (fun p => (p.1.1, p.1.2.1)), nk ++ enumFrom cs.length (zs.map (·.2)), n)
-  | [], n, cs, nk, _ => by simp [loadHeader, enumFrom]
-  | z :: t, n, cs, nk, hn => by
+    loadHeader (zs.map (fun p => HLine.cand p.1.2.1 p.2 p.1.1) ++ [HLine.ballotsN n]) cs nk sc
+      = .ok (cs ++ zs.map (fun p => (p.1.1, p.1.2.1)), nk ++ enumFrom cs.length (zs.map (·.2)), sys, n)
+  | [], n, cs, nk, sc, sys, hsys, _ => by simp [loadHeader, enumFrom, hsys]
+  | z :: t, n, cs, nk, sc, sys, hsys, hn => by
       have hfresh : z.2 ∉ nk.map (·.1) := by
         intro hm
         have := List.nodup_append.1 hn
@@ -48,7 +49,7 @@ theorem loadHeader_cands : ∀ (zs : List ((String × Bool × String) × String)
           ++ t.map (fun (z : (String × Bool × String) × String) => z.2)).Nodup := by
         simpa [List.append_assoc] using hn
       simp only [List.map_cons, List.cons_append, loadHeader]
-      rw [nickSet_fresh nk z.2 cs.length hfresh, loadHeader_cands t n _ _ hn']
+      rw [nickSet_fresh nk z.2 cs.length hfresh, loadHeader_cands t n _ _ sc sys hsys hn']
       simp [enumFrom, List.append_assoc]
 
 theorem lookup_enumFrom : ∀ (l : List String) (k i : Nat), l.Nodup → i < l.length →
@@ -246,8 +247,41 @@ theorem zip_map_fst_of_length {α β} : ∀ (a : List α) (b : List β), a.lengt
   | _ :: _, [], h => by simp at h
   | x :: xs, y :: ys, h => by simp [zip_map_fst_of_length xs ys (by simpa using h)]
 
-theorem load_dump (d : Doc Weight) (h : wfStv d = true) :
-    loadStv (dumpStv d).1 (dumpStv d).2 = .ok (eraseDoc d, d.cands.map (fun c => (c.1, c.2.1))) := by
+/-- the collected system settings, `syscomps` -/
+def collect (ls : List (String × SVal)) (acc : List (String × HV)) : List (String × HV) :=
+  ls.foldl (fun a p => compsSet a p.1 p.2) acc
+
+theorem loadHeader_others : ∀ (ls : List (String × SVal)) (rest : List HLine) (cs : List (String × Bool))
+    (nk : List (String × Nat)) (sc : List (String × HV)),
+    loadHeader (ls.map (fun p => HLine.other p.1 p.2) ++ rest) cs nk sc = loadHeader rest cs nk (collect ls sc)
+  | [], rest, cs, nk, sc => by simp [collect]
+  | p :: t, rest, cs, nk, sc => by
+      simp only [List.map_cons, List.cons_append, loadHeader, collect, List.foldl_cons]
+      exact loadHeader_others t rest cs nk _
+
+/-- the header `_dump_system` writes for a supported system is read back by `_create_system` to the same settings -/
+theorem sys_rt (d : SysDoc) (h : wfSys d = true) :
+    ∃ ls, dumpSys d.toSys = .ok ls ∧
+      createSystem (collect (ls ++ (match d.seatsArg with | some n => [("seats", SVal.num n)] | none => [])) [])
+        = .ok d.summary := by
+  obtain ⟨title, sf, sa, rnd, q, m⟩ := d
+  simp only [wfSys, Bool.and_eq_true, Bool.or_eq_true, decide_eq_true_eq, Bool.not_eq_true', Bool.and_eq_false_iff] at h
+  obtain ⟨hq, hs⟩ := h
+  rcases hq with rfl | rfl <;> cases title <;> cases sf <;> cases sa <;> cases m <;>
+    (first | (simp at hs; done) | skip) <;> rcases rnd with _ | _ | n <;>
+    (refine ⟨_, rfl, ?_⟩; simp [collect, compsSet, createSystem, sysTitle, sysMethod, sysQuotaSel, sysQuota, sysRandom,
+      sysSeats, SysDoc.summary, sysKeys, knownQuotas, List.lookup, SVal.word, SVal.num, bind, Except.bind, pure, Except.pure])
+
+theorem load_dump (sd : SysDoc) (hsd : wfSys sd = true) (d : Doc Weight) (h : wfStv d = true) :
+    ∃ hv, dumpStv sd.toSys sd.seatsArg d = .ok hv ∧
+      loadStv hv.1 hv.2 = .ok (eraseDoc d, d.cands.map (fun c => (c.1, c.2.1)), sd.summary) := by
+  obtain ⟨ls, hls, hsys⟩ := sys_rt sd hsd
+  refine ⟨((ls ++ (match sd.seatsArg with | some n => [("seats", SVal.num n)] | none => [])).map (fun p => HLine.other p.1 p.2)
+      ++ (d.cands.zip (candidateNicks (d.cands.map (·.2.2)))).map (fun p => HLine.cand p.1.2.1 p.2 p.1.1)
+      ++ [HLine.ballotsN d.ballots.length],
+    d.ballots.map (voteLine (candidateNicks (d.cands.map (·.2.2)))) ++ [VLine.endLine]), ?_, ?_⟩
+  · simp only [dumpStv, hls, ok_bind, pure_eq]
+    rfl
   simp only [wfStv, Bool.and_eq_true, decide_eq_true_eq, List.all_eq_true] at h
   obtain ⟨⟨_, hall⟩, hbn⟩ := h
   have hnd := candidateNicks_nodup (d.cands.map (·.2.2))
@@ -262,8 +296,8 @@ theorem load_dump (d : Doc Weight) (h : wfStv d = true) :
     have := hall b hb
     simp only [voteOK, hlen]
     simpa using this
-  simp only [loadStv, dumpStv]
-  rw [loadHeader_cands _ _ [] [] (by simpa [hzs] using hnd)]
+  simp only [loadStv]
+  rw [List.append_assoc, loadHeader_others, loadHeader_cands _ _ [] [] _ _ hsys (by simpa [hzs] using hnd)]
   simp only [ok_bind, List.nil_append, List.length_nil, hzs]
   rw [loadVotes_lines _ hnd d.ballots.length d.ballots 0 [] hok (by simpa using hbn) (by simp)]
   simp only [ok_bind, pure_eq, List.nil_append]
@@ -276,22 +310,74 @@ theorem load_dump (d : Doc Weight) (h : wfStv d = true) :
   simp [eraseDoc]
 
 
-/-! ### which exceptions the section reader can raise -/
+/-! ### which exceptions the reader can raise -/
 def StvErr (e : Err) : Prop :=
-  e = Err.parseError ∨ e = Err.other "ValueError" ∨ e = Err.other "ZeroDivisionError" ∨ e = unmodelled
+  e = Err.parseError ∨ e = Err.notImplemented ∨ e = unmodelled ∨ e = Err.other "ValueError" ∨ e = Err.other "ZeroDivisionError"
+    ∨ e = Err.other "TypeError" ∨ e = Err.other "AttributeError" ∨ e = Err.other "IndexError"
 
-theorem loadHeader_err : ∀ (hs : List HLine) (cs : List (String × Bool)) (nk : List (String × Nat)) (e : Err),
-    loadHeader hs cs nk = .error e → StvErr e
-  | [], _, _, e, h => by simp [loadHeader] at h; exact Or.inl h.symm
-  | .blank :: rest, cs, nk, e, h => by simp only [loadHeader] at h; exact loadHeader_err rest cs nk e h
-  | .invalid :: _, _, _, e, h => by simp [loadHeader] at h; exact Or.inl h.symm
-  | .cand w nick name :: rest, cs, nk, e, h => by simp only [loadHeader] at h; exact loadHeader_err rest _ _ e h
-  | .candBad :: _, _, _, e, h => by simp [loadHeader] at h; exact Or.inr (Or.inl h.symm)
-  | .ballotsN n :: _, _, _, e, h => by simp [loadHeader] at h
-  | .ballotsBlt :: _, _, _, e, h => by simp [loadHeader] at h; exact Or.inr (Or.inr (Or.inr h.symm))
-  | .ballotsBad :: _, _, _, e, h => by simp [loadHeader] at h; exact Or.inl h.symm
-  | .order _ :: _, _, _, e, h => by simp [loadHeader] at h; exact Or.inr (Or.inr (Or.inr h.symm))
-  | .other _ _ :: rest, cs, nk, e, h => by simp only [loadHeader] at h; exact loadHeader_err rest cs nk e h
+macro "stv_err_cases" h:ident : tactic => `(tactic| (
+  repeat' split at $h:ident
+  all_goals first
+    | (simp at $h:ident; done)
+    | (simp at $h:ident; subst $h:ident; simp [StvErr, unmodelled]; done)))
+
+theorem sysTitle_err (sc) (e : Err) (h : sysTitle sc = .error e) : StvErr e := by
+  unfold sysTitle at h; stv_err_cases h
+theorem sysMethod_err (sc) (e : Err) (h : sysMethod sc = .error e) : StvErr e := by
+  unfold sysMethod at h; stv_err_cases h
+theorem sysQuotaSel_err (m sc) (e : Err) (h : sysQuotaSel m sc = .error e) : StvErr e := by
+  unfold sysQuotaSel at h; simp only at h; stv_err_cases h
+theorem sysQuota_err (q) (e : Err) (h : sysQuota q = .error e) : StvErr e := by
+  unfold sysQuota at h; stv_err_cases h
+theorem sysRandom_err (sc) (e : Err) (h : sysRandom sc = .error e) : StvErr e := by
+  unfold sysRandom at h; stv_err_cases h
+theorem sysSeats_err (sc) (e : Err) (h : sysSeats sc = .error e) : StvErr e := by
+  unfold sysSeats at h; stv_err_cases h
+
+theorem createSystem_err (sc : List (String × HV)) (e : Err) (h : createSystem sc = .error e) : StvErr e := by
+  unfold createSystem at h
+  by_cases hk : (sc.any (fun c => !sysKeys.contains c.1)) = true
+  · rw [if_pos hk] at h; simp at h; subst h; simp [StvErr]
+  · rw [if_neg hk] at h
+    cases h1 : sysTitle sc with
+    | error e' => simp only [h1, ok_bind, err_bind] at h; cases h; exact sysTitle_err sc _ h1
+    | ok t =>
+      cases h2 : sysMethod sc with
+      | error e' => simp only [h1, h2, ok_bind, err_bind] at h; cases h; exact sysMethod_err sc _ h2
+      | ok m =>
+        cases h3 : sysQuotaSel m sc with
+        | error e' => simp only [h1, h2, h3, ok_bind, err_bind] at h; cases h; exact sysQuotaSel_err m sc _ h3
+        | ok qm =>
+          cases h4 : sysQuota qm.1 with
+          | error e' => simp only [h1, h2, h3, h4, ok_bind, err_bind] at h; cases h; exact sysQuota_err _ _ h4
+          | ok q =>
+            cases h5 : sysRandom sc with
+            | error e' => simp only [h1, h2, h3, h4, h5, ok_bind, err_bind] at h; cases h; exact sysRandom_err sc _ h5
+            | ok r =>
+              cases h6 : sysSeats sc with
+              | error e' => simp only [h1, h2, h3, h4, h5, h6, ok_bind, err_bind] at h; cases h; exact sysSeats_err sc _ h6
+              | ok z => simp only [h1, h2, h3, h4, h5, h6, ok_bind, err_bind, pure_eq] at h; cases h
+
+theorem loadHeader_err : ∀ (hs : List HLine) (cs : List (String × Bool)) (nk : List (String × Nat))
+    (sc : List (String × HV)) (e : Err), loadHeader hs cs nk sc = .error e → StvErr e
+  | [], _, _, _, e, h => by simp [loadHeader] at h; exact Or.inl h.symm
+  | .blank :: rest, cs, nk, sc, e, h => by simp only [loadHeader] at h; exact loadHeader_err rest cs nk sc e h
+  | .invalid :: _, _, _, _, e, h => by simp [loadHeader] at h; exact Or.inl h.symm
+  | .cand w nick name :: rest, cs, nk, sc, e, h => by simp only [loadHeader] at h; exact loadHeader_err rest _ _ sc e h
+  | .candBad :: _, _, _, _, e, h => by simp [loadHeader] at h; subst h; simp [StvErr]
+  | .ballotsN n :: _, _, _, sc, e, h => by
+      simp only [loadHeader] at h
+      cases hc : createSystem sc with
+      | error e' => rw [hc] at h; simp at h; subst h; exact createSystem_err sc e' hc
+      | ok sys => rw [hc] at h; simp at h
+  | .ballotsBlt :: _, _, _, _, e, h => by simp [loadHeader] at h; subst h; simp [StvErr]
+  | .ballotsBad :: _, _, _, sc, e, h => by
+      simp only [loadHeader] at h
+      cases hc : createSystem sc with
+      | error e' => rw [hc] at h; simp at h; subst h; exact createSystem_err sc e' hc
+      | ok sys => rw [hc] at h; simp at h; exact Or.inl h.symm
+  | .order _ :: _, _, _, _, e, h => by simp [loadHeader] at h; subst h; simp [StvErr]
+  | .other _ _ :: rest, cs, nk, sc, e, h => by simp only [loadHeader] at h; exact loadHeader_err rest cs nk _ e h
 
 theorem lookupNicks_err (nk : List (String × Nat)) : ∀ (l : List String) (e : Err),
     lookupNicks nk l = .error e → e = Err.parseError
@@ -322,7 +408,7 @@ theorem loadVotes_err (nk : List (String × Nat)) (n : Nat) : ∀ (vs : List VLi
         | error e' => rw [hl] at h; simp at h; subst h; exact Or.inl (lookupNicks_err nk _ _ hl)
         | ok b => rw [hl] at h; simp only [ok_bind] at h; exact loadVotes_err nk n rest _ _ e h
       | multBad => simp at h; exact Or.inl h.symm
-      | multZero => simp at h; exact Or.inr (Or.inr (Or.inl h.symm))
+      | multZero => simp at h; subst h; simp [StvErr]
       | word s =>
         simp only at h
         cases hl : lookupNicks nk (s :: more) with
@@ -331,10 +417,10 @@ theorem loadVotes_err (nk : List (String × Nat)) (n : Nat) : ∀ (vs : List VLi
 
 theorem loadStv_err (hs : List HLine) (vs : List VLine) (e : Err) (h : loadStv hs vs = .error e) : StvErr e := by
   simp only [loadStv] at h
-  cases hh : loadHeader hs [] [] with
-  | error e' => rw [hh] at h; simp at h; subst h; exact loadHeader_err _ _ _ _ hh
+  cases hh : loadHeader hs [] [] [] with
+  | error e' => rw [hh] at h; simp at h; subst h; exact loadHeader_err _ _ _ _ _ hh
   | ok r =>
-    obtain ⟨cs, nk, n⟩ := r
+    obtain ⟨cs, nk, sys, n⟩ := r
     rw [hh] at h
     simp only [ok_bind] at h
     cases hv : loadVotes nk n vs 0 [] with
